@@ -205,8 +205,8 @@ def byRankBody (key : Bytes) (desc withScores : Bool) (start stop : Int) : HRes 
     call (Api.zrange desc withScores s now key start stop) fun s o => writeRange withScores s o
 
 /-- ZRANGE key start stop [BYSCORE] [REV] [LIMIT offset count] [WITHSCORES] (all option positions > 2).
-    BYSCORE: the exclusive marks are read from argument 1 (→ MinOpen) and argument 2 (→ MaxOpen)
-    also under REV, where argument 1 is the maximum. Without BYSCORE, LIMIT is ignored. -/
+    BYSCORE: the exclusive marks are read from argument 1 and argument 2; under REV argument 1 is the
+    maximum (→ MaxOpen) and argument 2 the minimum (→ MinOpen). Without BYSCORE, LIMIT is ignored. -/
 def zRange (args : List Bytes) : HRes :=
   match args with
   | key :: a1 :: a2 :: _ =>
@@ -219,7 +219,7 @@ def zRange (args : List Bytes) : HRes :=
         let c2 ← firstByteP a2
         let max ← floatP (if rev then a1 else a2)
         let (offset, count) ← limitP args
-        let mode := (if c1 = lparen then minOpen else 0) + (if c2 = lparen then maxOpen else 0)
+        let mode := (if c1 = lparen then (if rev then maxOpen else minOpen) else 0) + (if c2 = lparen then (if rev then minOpen else maxOpen) else 0)
         pure (byScoreBody key rev ws min max offset count mode)
     else
       Pre.run do
@@ -251,8 +251,8 @@ def zRangeByScore (args : List Bytes) : HRes :=
       pure (byScoreBody key false (opt args "WITHSCORES" > 2) min max offset count mode)
   | _ => errReply
 
-/-- ZREVRANGEBYSCORE key max min …: an exclusive mark on argument 2 (the minimum) sets MaxOpen, one
-    on argument 1 (the maximum) sets MinOpen -/
+/-- ZREVRANGEBYSCORE key max min …: an exclusive mark on argument 2 (the minimum) sets MinOpen, one
+    on argument 1 (the maximum) sets MaxOpen -/
 def zRevRangeByScore (args : List Bytes) : HRes :=
   match args with
   | key :: a1 :: a2 :: _ =>
@@ -262,7 +262,7 @@ def zRevRangeByScore (args : List Bytes) : HRes :=
       let c1 ← firstByteP a1
       let max ← floatP a1
       let (offset, count) ← limitP args
-      let mode := (if c2 = lparen then maxOpen else 0) + (if c1 = lparen then minOpen else 0)
+      let mode := (if c2 = lparen then minOpen else 0) + (if c1 = lparen then maxOpen else 0)
       pure (byScoreBody key true (opt args "WITHSCORES" > 2) min max offset count mode)
   | _ => errReply
 
